@@ -8,6 +8,7 @@ mod emit;
 mod explore;
 mod mats;
 mod real;
+mod bez;
 mod scen;
 mod vecs;
 
